@@ -522,7 +522,7 @@ def emit_dlfwd(e):
 
 def dl_table(cpp, hpp, cls, regions):
     defs = dl_definitions(cpp, cls)
-    fwd, prov = [], []
+    fwd, prov, own = [], [], []
     for name, lst in defs.items():
         if name == cls:
             continue
@@ -540,6 +540,10 @@ def dl_table(cpp, hpp, cls, regions):
         if name == 'get_name':
             if flat != 'if (functions->name) return functions->name; return file.filename().string();':
                 raise TErr(f'{cls}::get_name: unrecognised body')
+            continue
+        if not re.search(r'\bfunctions\b', flat):
+            # implemented by the class itself, without any use of the plug-in's function table
+            own.append(name)
             continue
         def fcall(text):
             """`functions->M(ARGS)` at the start of text -> (M, ARGS, rest)"""
@@ -661,8 +665,8 @@ def dl_table(cpp, hpp, cls, regions):
         raise TErr(f'{cls} constructor: {n_deref} uses of `functions->`, {n_known} recognised '
                    '(data-member copies and guarded initialize_* calls)')
     regions[cls] = {'forwarded': len(fwd), 'provides': len(prov), 'ctor_steps': [s for _, s in steps],
-                    'hash': cp.ast_hash([fwd, prov, steps, init, reads])}
-    return fwd, prov, [s for _, s in steps], init, declared, reads
+                    'own': own, 'hash': cp.ast_hash([fwd, prov, steps, init, reads, own])}
+    return fwd, prov, [s for _, s in steps], init, declared, reads, own
 
 
 def abi_members(h, struct):
@@ -777,13 +781,14 @@ def emit_abi(name, ms):
     return f'def {name} : List AbiMember := [\n' + ',\n'.join(rows) + ']\n'
 
 
-def emit_dl(name, cls, fwd, prov, steps, init, declared, reads):
+def emit_dl(name, cls, fwd, prov, steps, init, declared, reads, own):
     L = [f'def {name} : DLTable where', f'  cls := {lstr(cls)}', '  fwd := [',
          ',\n'.join(emit_dlfwd(e) for e in fwd) + ']', '  prov := [',
          ',\n'.join(f'    {{ method := {lstr(n)}, test := {t} }}' for n, t in prov) + ']',
          '  ctor := [' + ', '.join(steps) + ']', '  init := [',
          ',\n'.join(emit_dlfwd(e) for e in init) + ']', f'  declared := {llist(declared)}',
-         '  dataReads := ' + llist(reads, lambda p: f'({lstr(p[0])}, {lstr(p[1])})')]
+         '  dataReads := ' + llist(reads, lambda p: f'({lstr(p[0])}, {lstr(p[1])})'),
+         f'  own := {llist(own)}']
     return '\n'.join(L) + '\n'
 
 
